@@ -57,9 +57,42 @@ fn edit_word(rng: &mut Rng, w: &str, edits: usize) -> String {
     cs.concat()
 }
 
+/// long words: candidates sharing a long prefix with the word and padded with junk, so that many
+/// distinct ratios lie within 1e-4 of each other
+fn long_close_case(rng: &mut Rng, case: i64) -> Value {
+    let wl = rng.range(150, 220);
+    let word: String = (0..wl).map(|_| char::from(b'a' + rng.below(6) as u8)).collect();
+    let mut cands: Vec<String> = vec![];
+    for _ in 0..rng.range(3, 7) {
+        let k = wl - rng.range(10, 30);
+        let j = rng.range(60, 85);
+        let mut c: String = word.chars().take(k).collect();
+        for _ in 0..j {
+            c.push('Z');
+        }
+        cands.push(c);
+    }
+    let nres = rng.range(1, 4);
+    let (p, q) = (1u32, 2u32);
+    let cr: Vec<&str> = cands.iter().map(|c| c.as_str()).collect();
+    let res = rec::guarded(|| {
+        get_close_matches(word.as_str(), &cr, nres, p as f32 / q as f32)
+            .into_iter()
+            .map(|x| cps(x))
+            .collect::<Vec<Value>>()
+    });
+    json!({"ev":"closematch","case":case,"mode":"str","long":true,
+        "word":cps(&word),"cands":Value::Array(cands.iter().map(|c| cps(c)).collect()),
+        "n":nres,"p":p,"q":q,"panic":res.is_none(),"result":res.unwrap_or_default()})
+}
+
 pub fn drive_c18(a: &Args, out: &mut Out) {
     let mut rng = Rng::new(a.num("seed", 1));
     let n = if a.thorough() { 20000 } else { 2500 };
+    for _ in 0..(if a.thorough() { 400 } else { 60 }) {
+        let case = out.next_case();
+        out.emit(&long_close_case(&mut rng, case));
+    }
     let bases = ["appel", "hulo", "similarity", "abcabcabcabcabcabcab", "", "a", "\u{e9}t\u{e9}", "banana", "aaaaaaaaaa", "stra\u{df}e"];
     for i in 0..n {
         let base = bases[rng.below(bases.len())];
@@ -228,9 +261,49 @@ fn similar_line_pair(rng: &mut Rng) -> (String, String) {
     (old, new)
 }
 
+/// big Replace hunks: more than 1000 word tokens on a side, similar enough to pass both ratio
+/// gates, with different token counts on the two sides (one long line; many short lines)
+fn big_inline_pairs(rng: &mut Rng) -> Vec<(String, String)> {
+    let mut v = vec![];
+    let words = ["foo", "bar", "baz", "qux", "x", "y1", "zz"];
+    // one line of ~600 words vs the same with some words dropped / added
+    let w: Vec<&str> = (0..rng.range(560, 640)).map(|_| *rng.pick(&words)).collect();
+    for drop in [true, false] {
+        let mut w2 = w.clone();
+        for _ in 0..12 {
+            let p = rng.below(w2.len());
+            if drop {
+                w2.remove(p);
+            } else {
+                w2.insert(p, "NEW");
+            }
+        }
+        v.push((format!("{}\n", w.join(" ")), format!("{}\n", w2.join(" "))));
+    }
+    // 160 changed lines of four words each vs 150 / 170 lines
+    for delta in [-10i64, 10] {
+        let mut old = String::new();
+        let mut new = String::new();
+        for i in 0..160 {
+            old.push_str(&format!("k{} {} {} {}\n", i, rng.pick(&words), rng.pick(&words), rng.pick(&words)));
+        }
+        for i in 0..(160 + delta) {
+            new.push_str(&format!("k{} {} {} v\n", i, rng.pick(&words), rng.pick(&words)));
+        }
+        v.push((old, new));
+    }
+    v
+}
+
 pub fn drive_c16(a: &Args, out: &mut Out) {
     let mut rng = Rng::new(a.num("seed", 1));
     let n = if a.thorough() { 12000 } else { 1200 };
+    for (x, y) in big_inline_pairs(&mut rng) {
+        for expired in [false, true] {
+            let case = out.next_case();
+            out.emit(&inline_record::<str>(case, Algorithm::Myers, "str", expired, &x, &y));
+        }
+    }
     for i in 0..n {
         let (x, y) = if i % 4 == 3 {
             let k = rng.below(6);
@@ -349,7 +422,7 @@ pub fn udiff_record<T: DiffableStr + ?Sized>(
 pub fn line_text_pairs(rng: &mut Rng, thorough: bool) -> Vec<(Vec<u8>, Vec<u8>)> {
     let mut v: Vec<(Vec<u8>, Vec<u8>)> = vec![];
     // all texts of <= 3 lines over a few line bodies/terminators (incl. missing final newline)
-    let lines = ["a\n", "b\n", "a\r\n", "b\r", "a"];
+    let lines = ["a\n", "b\n", "a\r\n", "b\r", "a", "c ", "b\t"];
     let mut texts: Vec<String> = vec![String::new()];
     let mut frontier = vec![String::new()];
     for _ in 0..(if thorough { 3 } else { 2 }) {
